@@ -16,6 +16,9 @@ from sa.props._lib_e import (Unknown, assigns_self, call_in, calls_named, catche
                              ordered, resolve_local, risky_calls, self_attr, site_label, walk)
 
 PROPERTY = "C19"
+INCLUDE = [("C22", None, "the server decodes chunked request bodies with http._ChunkedTransferDecoder: 'exactly the body RFC 9112 assigns to it (... chunked coding)' and "
+            "'malformed chunks ... answered with 400' need every clause of C22 about that decoder (strict size line, exact CRLF after chunk data, absorbing rejection, "
+            "errors raised as _MalformedChunkedDataError, which C19's own mustpass/ rules then follow to the 400)")]
 HTTP = "web/http.py"
 ABNF = "web/_abnf.py"
 HDRS = "web/http_headers.py"
